@@ -4,6 +4,7 @@ by field group so that each property's check decides only its own fields."""
 from __future__ import annotations
 
 import copy
+import json
 
 from .. import observe, refcompile, docmodel
 from ..common import h64, short
@@ -178,6 +179,14 @@ def shape_of(doc):
 _HELD = {}
 
 
+def _reordered(o):
+    if isinstance(o, dict):
+        return {k: _reordered(o[k]) for k in reversed(list(o))}
+    if isinstance(o, list):
+        return [_reordered(x) for x in o]
+    return o
+
+
 def compare(doc, uri, next_free, prop, M, case, compiler=None):
     """Compile `doc` (ids already assigned, next free id known) with the real compiler and
     with R4; report differences of the field group of `prop`; others are advisory.
@@ -199,6 +208,20 @@ def compare(doc, uri, next_free, prop, M, case, compiler=None):
         M.violation(prop + ".crash", {"what": "exception escaped Compiler.compile", "type": type(e).__name__,
                                       "repr": repr(e)[:160], "origin": origin}, case, mechanism=mech)
         return None
+    if compiler is None and M.counters.get("compile_calls", 0) % 4 == 2:
+        # the same document as a caller may hold it: loaded from JSON, its dictionaries filled in another order
+        M.count("reordered_documents_compared")
+        try:
+            got3 = Compiler(generator_at(next_free)).compile(_reordered(json.loads(json.dumps(before))))
+        except Exception as e:
+            got3 = {"raised": repr(e)[:160]}
+        if got3 != want:
+            d3 = diff_groups(got3, want) if isinstance(got3, list) else {prop: [{"got": got3}]}
+            if prop in d3:
+                M.violation(prop + ".reordered", {"what": "the same document loaded from JSON with its keys in another order compiles to other pickles (%s)" % GROUPS.get(prop, prop),
+                                                  "differences": short(d3.get(prop), 300)}, case)
+            else:
+                M.count("advisory.reordered_differs_in_other_group")
     if compiler is None and M.counters.get("compile_calls", 0) % 4 == 0:
         # the same document compiled a second time (a caller may compile a document it has kept): same pickles
         M.count("recompiles_compared")
